@@ -1341,6 +1341,14 @@ func regexpToWordMatchTree(q *query.Regexp, opt matchTreeOpt) (_ *wordMatchTree,
 		return nil, false
 	}
 
+	// The fast path decides \b by looking at the bytes next to the literal only,
+	// which is equivalent to the regexp only if the literal is case sensitive
+	// and itself starts and ends with a word character.
+	word := string(sub[1].Rune)
+	if sub[1].Flags&syntax.FoldCase != 0 || word == "" || !characterClass(word[0]) || !characterClass(word[len(word)-1]) {
+		return nil, false
+	}
+
 	return &wordMatchTree{
 		word:     string(sub[1].Rune),
 		fileName: q.FileName,
